@@ -55,6 +55,9 @@ CHECKS["C02"] = ("§5 C02", "Snapshots produced by the real handler/collector fo
     "self absent/instance/None), top-frame locals from graph templates (nested, shared, cyclic, objects with private attributes, exceptions), 5 frame_type settings, "
     "0-2 watches, line and method tracepoints, compared field by field with an independent reader of the same objects (type names, text, children, de-mangled names, "
     "identity), plus tracepoint identity/arguments, timestamp and resource. Selector space enumerated by the solver.")
+CHECKS["C07"] = ("§5 C07", "Snapshots of graph templates with sharing and cycles plus two watches (frame locals, fresh containers of existing objects, fresh scalars, "
+    "failing) under a SYMBOLIC variable budget, produced by the real collector: every frame/child/watch reference resolves in the snapshot's own table, one object one id, "
+    "distinct objects distinct ids (identity through the recorded hash), table no larger than the number of distinct objects (cycles end in back-references).")
 PENDING = {}
 
 def main():
